@@ -53,6 +53,13 @@ def build(kind="hooks", bins=None, quiet=True):
         env["RUSTFLAGS"] = "--cfg cadence_verif"
         cmd = ["cargo", "build", "--release", "--offline"]
         bindir = os.path.join(TARGET, "release")
+    elif kind == "dev":
+        # an UNOPTIMISED build (opt-level 0, debug assertions and overflow checks on): what `cargo build` / `cargo test`
+        # give a user - frames are large, nothing is inlined, recursion stays recursion
+        env["RUSTFLAGS"] = "--cfg cadence_verif"
+        env["CARGO_PROFILE_DEV_OPT_LEVEL"] = "0"
+        cmd = ["cargo", "build", "--offline"]
+        bindir = os.path.join(TARGET, "debug")
     elif kind == "tsan":
         env["RUSTFLAGS"] = "-Zsanitizer=thread"
         env["CARGO_TARGET_DIR"] = os.path.join(TARGET, "tsan")
